@@ -52,7 +52,9 @@ func verifVS(s string) *vsapi.VirtualServer {
 	return vs
 }
 
-type verifStore struct{ objs map[string]*extdnsapi.DNSEndpoint }
+type verifStore struct {
+	objs map[string]*extdnsapi.DNSEndpoint
+}
 
 func verifEssence(e *extdnsapi.DNSEndpoint) string {
 	var eps []string
